@@ -88,7 +88,6 @@ theorem altsLoop_ok (name : String) (alts : List Alt) (i : Nat) (s : St Ty)
     simp only [altsLoop] at h0 ⊢
     cases h1 : altType env rec a s with
     | mk r1 s1 =>
-      rw [h1] at h0 ⊢
       cases r1 with
       | ok t =>
         simp only at h0 ⊢
